@@ -7,6 +7,7 @@ require (
 	github.com/blevesearch/bleve_index_api v1.4.0
 	github.com/blevesearch/scorch_segment_api/v2 v2.4.8
 	github.com/blevesearch/upsidedown_store_api v1.0.2
+	github.com/couchbase/moss v0.2.0
 	go.etcd.io/bbolt v1.4.0
 )
 
@@ -32,7 +33,6 @@ require (
 	github.com/blevesearch/zapx/v16 v16.3.4 // indirect
 	github.com/blevesearch/zapx/v17 v17.2.0 // indirect
 	github.com/couchbase/ghistogram v0.1.0 // indirect
-	github.com/couchbase/moss v0.2.0 // indirect
 	github.com/golang/snappy v1.0.0 // indirect
 	github.com/json-iterator/go v0.0.0-20171115153421-f7279a603ede // indirect
 	github.com/mschoch/smat v0.2.0 // indirect
@@ -44,5 +44,7 @@ require (
 replace github.com/blevesearch/bleve/v2 => /repo
 
 replace github.com/blevesearch/bleve_index_api => ./.build/deps/bleve_index_api
+
 replace go.etcd.io/bbolt => ./.build/deps/bbolt
+
 replace github.com/blevesearch/zapx/v17 => ./.build/deps/zapx17
